@@ -255,6 +255,9 @@ func cmdCheck(args []string) int {
 		}
 		for a := range g.assumptions {
 			assumptions[a] = true
+			if *verbose && (strings.Contains(a, "havocked") || strings.Contains(a, "without contract")) {
+				fmt.Printf("  note[%s]: %s\n", g.curFunc, a)
+			}
 		}
 		for _, w := range g.warn {
 			assumptions["warning: "+w] = true
